@@ -477,6 +477,109 @@ def r11_operands_are_evaluated_unconditionally(ctx, rule="C01.R11"):
     ctx.require(rule, 1)
 
 
+_SHRINKS = re.compile(r"(?:Vec|VecDeque)::<[^>]*(?:<[^>]*>[^>]*)*>::(remove|pop|pop_front|pop_back|swap_remove|truncate|drain|split_off|retain|clear|dedup\w*)$")
+_LEN = re.compile(r"(?:Vec|VecDeque)::<[^>]*(?:<[^>]*>[^>]*)*>::len$|core::slice::<impl \[T\]>::len$")
+
+
+def _loop_of(body, b, memo):
+    """blocks on a cycle through b (empty when b is not in a loop)"""
+    if b not in memo:
+        fwd = set()
+        st = list(body.succ(b))
+        while st:
+            x = st.pop()
+            if x in fwd or body.is_cleanup(x):
+                continue
+            fwd.add(x)
+            st.extend(body.succ(x))
+        if b not in fwd:
+            memo[b] = frozenset()
+        else:
+            preds = body.preds()
+            bwd = set()
+            st = [b]
+            while st:
+                x = st.pop()
+                if x in bwd:
+                    continue
+                bwd.add(x)
+                st.extend(preds.get(x, ()))
+            memo[b] = frozenset(fwd & bwd)
+    return memo[b]
+
+
+def r13_numbered_list_does_not_shrink(ctx, rule="C01.R13"):
+    """The blocks of a statement (ELSEIF blocks, CASE blocks, arguments) are emitted in a loop that numbers them -
+    the labels `else-if-<i>` and the jump to `the next one, or ELSE when this is the last` are made from the
+    position of the block in the list and the length of the list.  Inside such a loop the length of the list is
+    compared with a position only while the list is whole: a loop that also takes elements out of the list
+    (remove, pop, drain, ...) compares positions of the full list with the length of what is left, and sends the
+    false branch of a condition to ELSE / END IF although more blocks follow."""
+    prog = ctx.prog
+    n = 0
+    for f in sorted(emit.generator_fns(prog), key=lambda x: x.id):
+        body = f.body
+        prov = mir.Prov(body)
+        lens, shr = [], []
+        for b, t in body.calls():
+            cp = mir.callee_path(t)
+            if not t["args"]:
+                continue
+            if _LEN.search(cp):
+                lens.append((b, t, str(mir.strip_all(prov.of_operand(t["args"][0])))))
+            m = _SHRINKS.search(cp)
+            if m:
+                shr.append((b, m.group(1), str(mir.strip_all(prov.of_operand(t["args"][0]))), t))
+        if not lens:
+            continue
+        memo = {}
+        len_locals = {}
+        for b, t, v in lens:
+            len_locals[t["d"][0]] = (b, v, t)
+        # comparisons of a length with something that is not a constant, inside a loop
+        for b, blk in enumerate(body.blocks):
+            if body.is_cleanup(b):
+                continue
+            for s in blk["s"]:
+                if s["k"] != "assign" or s["r"]["k"] != "bin" or s["r"]["op"] not in ("Lt", "Le", "Gt", "Ge", "Eq", "Ne"):
+                    continue
+                sides = [prov.of_operand(s["r"]["a"]), prov.of_operand(s["r"]["b"])]
+                for i, o in enumerate(sides):
+                    hit = []
+                    mir.origin_mentions(o, lambda x: hit.append(x) or False
+                                        if x[0] == "call" and _LEN.search(x[1]) else False)
+                    if not hit:
+                        continue
+                    other = sides[1 - i]
+                    if other[0] == "const":
+                        continue
+                    for h in hit:
+                        lb = h[3]
+                        v = str(mir.strip_all(h[2][0]))
+                        loop = _loop_of(body, lb, memo)
+                        if not loop:
+                            continue
+                        n += 1
+                        bad = ["%s (line %s)" % (name, t2.get("line", "?")) for b2, name, v2, t2 in shr
+                               if v2 == v and b2 in loop]
+                        ctx.decide(not bad, rule, "%s:%s:%s" % (rule, f.name, body.var_name(_root_local(h[2][0])) or v), f.loc,
+                                   "the length of %s is compared with a position inside a loop that takes nothing out of it" % v,
+                                   "%s compares a position in the list with the length of %s inside a loop that also shrinks it "
+                                   "(%s): positions count the whole list, the length what is left of it - the jump to `the next "
+                                   "block, or ELSE / the end when this is the last` skips blocks that follow "
+                                   "(`IF a THEN .. ELSEIF b THEN .. ELSEIF c THEN ..` never tests c)"
+                                   % (f.name, v, ", ".join(bad)))
+    ctx.require(rule, 1)
+
+
+def _root_local(o):
+    while isinstance(o, tuple) and o and o[0] in ("ref", "deref", "field", "clone", "index", "downcast"):
+        o = o[1]
+    if isinstance(o, tuple) and o and o[0] == "local":
+        return o[1]
+    return -1
+
+
 def run(ctx):
     common.install(ctx)
     r1_dispatch(ctx)
@@ -506,3 +609,4 @@ def run(ctx):
     c10.r2_unary_flip(ctx, _eng, "C01.R12")
     c10.r6_unary_over_chains(ctx, "C01.R12")
     c10.r10_binary_chains(ctx, "C01.R12")
+    r13_numbered_list_does_not_shrink(ctx)
